@@ -21,7 +21,10 @@ PROP = dict(
                        # auction start decisions, emergency guards
                        "Comdex.C13.surplus_start_only_above_threshold", "Comdex.C13.debt_start_only_below_threshold",
                        "Comdex.C13.no_start_when_switched_off", "Comdex.C13.activation_sweep_keeps_books",
-                       "Comdex.C13.shutdown_blocks_create_deposit_whitelist"],
+                       "Comdex.C13.shutdown_blocks_create_deposit_whitelist",
+                       # first-generation surplus / debt auctions: bids, restart, every close path
+                       "Comdex.C13.gen1_close_keeps_books", "Comdex.C13.gen1_close_collector_effect",
+                       "Comdex.C13.gen1_begin_block_keeps_books", "Comdex.C13.gen1_bids_keep_books"],
     harness_tests=["TestC13"],
     trusted_base=[KERNEL_TB, HARNESS_TB,
                   "Model/Locker.lean is hand-written from x/locker/keeper/msg_server.go, x/locker/keeper/locker.go, "
@@ -38,7 +41,9 @@ PROP = dict(
                   "x/bank: no vesting / blocked / send-disabled accounts are created; protobuf and the KV store are exercised, not modelled"],
     assumptions=["surplus and debt flag of an auction-mapping entry are mutually exclusive (enforced by SetAuctionMappingForApp); both assets "
                  "of a collector entry exist; first-generation auction parameters exist for the app",
-                 "the emergency wind-down of RUNNING first-generation auctions (ESM status set) and all bidding are not modelled",
+                 "first-generation auctions: only the collector-asset side is booked (the secondary asset - surplus bids, minted tokens of debt "
+                 "auctions - never touches the collector and lies outside the projection); auction duration, bid duration and bid factor are the "
+                 "same for every app / entry of a history; second-generation bidding is not modelled",
                  "every asset has its own denomination (the harness gives each asset id a distinct denom)",
                  "fee inflows are modelled as 'the collector receives x and records x'; where the coins come from (vault, auction "
                  "escrow) is the subject of C01/C02/C11",
@@ -49,7 +54,10 @@ PROP = dict(
          "decreases, surplus funds, ESM / kill-switch toggles, with time gaps from 0 s to 200 days and boundary-directed amounts; plus "
          "second-generation surplus and debt auctions run end to end; plus activation histories: four collector entries with random "
          "thresholds and lot sizes, net fees steered to surplusThreshold+lot / debtThreshold-lot and their neighbours, the real "
-         "x/auction and liquidationsV2 begin-blockers deciding; distinct = distinct trace text, non-trivial = at least one accepted call",
+         "x/auction and liquidationsV2 begin-blockers deciding, real MsgPlaceSurplusBid / MsgPlaceDebtBid bids (boundary amounts), ESM "
+         "toggles and time jumps past the bid / auction windows so that every first-generation close path and the restart occur; plus 8 "
+         "directed histories, one per close path (surplus|debt x bid|no bid x shutdown|window over); distinct = distinct trace text, "
+         "non-trivial = at least one accepted call",
 )
 
 META = dict(
